@@ -509,7 +509,7 @@ func TestQuadtreeLosesNothing(t *testing.T) {
 		scaled := &lat.Recorder2{S: lat.Scaled2{S: s, K: math.Ldexp(1, -k)}}
 		lsc := collect2(scaled, render.NewMarchingSquaresQuadtree(cells))
 		// which sides of which finest square every segment joins (see pairing_test.go)
-		if bad, n := pairingCheck(lb, scaled, res); bad != "" {
+		if bad, n := pairingCheck(lb, scaled, res, math.Ldexp(1, k)); bad != "" {
 			rec.Violation(t, "MarchingSquaresQuadtree:segment-joins-other-sides-than-the-square-evaluation", "%d cells, scene [%s] %s: %s", cells, kind, desc, bad)
 		} else {
 			rec.Add("quadtree:squares-with-checked-pairing", int64(n))
